@@ -39,6 +39,9 @@ def run_dmrg(ctx, H, psi, two, nsweeps, numiter, tol_split, detail, label):
         except Exception:
             local.append(float('nan'))
         return out
+    if np.any(psi.qd) and (nsweeps + numiter + psi.nsites + int(two)) % 4 == 0:
+        # the operator in a different, equally valid labelling (shifted physical labels): the state's own labels are the ones that count
+        H = gen.relabelled_operator(np.random.default_rng(nsweeps * 1000 + numiter), H)
     dH = monitor.digest(H)
     fn = ptn.calculate_ground_state_local_twosite if two else ptn.calculate_ground_state_local_singlesite
     with monitor.attached('pytenet.minimization._minimize_local_energy', around), monitor.attached('pytenet.bond_ops.retained_bond_indices', around_ret), monitor.write_protected(H):
